@@ -49,7 +49,7 @@ def work(job):
     binary, cases = job
     built = []
     for cid, kind, arg, dm, hist in cases:
-        if kind == 'rand': ch, h = c01lib.make_case(arg, dm if dm != 'promela' else 'lua')
+        if kind == 'rand': ch, h = c01lib.make_case(arg, dm)
         else: ch, h = arg, hist
         built.append((cid, ch, h, dm))
     run = []
